@@ -15,16 +15,16 @@ import (
 )
 
 type c04Scn struct {
-	N        int           `json:"n"`
-	Latency  string        `json:"latency"`          // zero | uniform | bimodal
-	PV       int           `json:"protocol_version"` // 0 = mixed
-	Indirect int           `json:"indirect_checks"`
-	TCPPing  bool          `json:"tcp_pings"`
-	Compress bool          `json:"compress"`
-	Enc      bool          `json:"encrypt"`
+	N        int    `json:"n"`
+	Latency  string `json:"latency"`          // zero | uniform | bimodal
+	PV       int    `json:"protocol_version"` // 0 = mixed
+	Indirect int    `json:"indirect_checks"`
+	TCPPing  bool   `json:"tcp_pings"`
+	Compress bool   `json:"compress"`
+	Enc      bool   `json:"encrypt"`
 	// encryption roll-out stage: every node has the keyring, accepts cleartext as well
 	// (GossipVerifyIncoming off) and odd-numbered nodes still send cleartext (GossipVerifyOutgoing off)
-	Rollout bool `json:"encryption_rollout_stage,omitempty"`
+	Rollout  bool          `json:"encryption_rollout_stage,omitempty"`
 	Label    string        `json:"label"`
 	JoinMode string        `json:"join_mode"` // burst | staggered
 	Ops      int           `json:"ops"`
